@@ -29,7 +29,23 @@ pub const CFGS: [Cfg; 4] = [
     Cfg { mode: Mode::Full, persistent: false },
 ];
 
+/// How the two replicas of a pair come into being.
+#[derive(Clone, Debug, Default)]
+pub enum Family {
+    /// both built directly from their sets with their layouts
+    #[default]
+    Plain,
+    /// three-replica history: A first synced (full session, persistent cache) from an early B
+    /// that held only `p1`, then learnt the rest of its set from a third replica C (layout `lc`,
+    /// separate cache); its cache for B is therefore stale when it meets the present B
+    Stale { p1: NodeSet, lc: Layout },
+    /// explicit ingest batches (one transaction, `flush` after every batch => one segment per
+    /// batch and causal run): segment boundaries chosen independently on both sides
+    Batches { a: Vec<Vec<usize>>, b: Vec<Vec<usize>> },
+}
+
 pub struct Pair<'a> {
+    pub family: Family,
     pub w: &'a World,
     pub sa: &'a NodeSet,
     pub sb: &'a NodeSet,
@@ -51,6 +67,11 @@ impl Pair<'_> {
             "layout_a": self.la.tag(), "layout_b": self.lb.tag(),
             "mode": if self.cfg.mode == Mode::OneShot { "oneshot" } else { "full" }, "persistent": self.cfg.persistent,
             "name": self.name,
+            "family": match &self.family {
+                Family::Plain => json!({"kind": "plain"}),
+                Family::Stale { p1, lc } => json!({"kind": "stale", "p1": set_to_json(p1), "layout_c": lc.tag()}),
+                Family::Batches { a, b } => json!({"kind": "batches", "a": a, "b": b}),
+            },
         })
     }
     fn rank(&self) -> (usize, usize, usize) {
@@ -88,6 +109,12 @@ pub struct PairStats {
     pub fruitless_budget: Vec<bool>,
     /// one-response exchanges stopped making progress (informational)
     pub oneshot_stalled: bool,
+    /// (stale-cache family) max cut distance between A's cache entry for B and A's real frontier
+    pub stale_cache_gap: u64,
+    /// sessions in which the responder sent the tail of one of its segments starting after a
+    /// command the requester holds, although the request sample named no command inside that segment
+    /// (the segment was trimmed by coverage propagation from a fork, `cover_up_to`)
+    pub trimmed_by_coverage: u64,
 }
 
 fn state_key(a: &NodeSet, b: &NodeSet, dir: u8, p: &Pair<'_>) -> u64 {
@@ -122,6 +149,7 @@ fn step(
         st.multi_response_sessions += 1;
     }
     st.cut_responses += out.full_responses as u64;
+    st.trimmed_by_coverage += trimmed_by_coverage(w, resp, cur_req, &out) as u64;
     let who = if dir == 0 { "A<-B" } else { "B<-A" };
     for (c, d) in &out.faults {
         st.c17.push((c.clone(), format!("session {} ({who}): {d}", st.sessions)));
@@ -162,10 +190,46 @@ fn step(
     (out, gained)
 }
 
+/// Did this session exercise the responder's coverage trimming of an already pending segment
+/// (`cover_up_to` finding an entry)? Observable from outside as: some delivered command `x` has
+/// its single parent `y` in the SAME responder segment, `y` was not delivered and is held by the
+/// requester, and the request sample names no command inside that segment (so the trim cannot
+/// come from a sampled address in the segment, only from coverage propagated across a fork).
+fn trimmed_by_coverage(w: &World, resp: &mut Peer, cur_req: &NodeSet, out: &Outcome) -> bool {
+    use rtlib::rt::{Storage as _, StorageProvider as _};
+    if out.delivered.is_empty() {
+        return false;
+    }
+    let Ok(storage) = resp.r.client.provider().get_storage(w.graph) else { return false };
+    let mut seg_of = |i: usize| storage.get_location(rtlib::replica::addr(w.ids[i], w.max_cuts[i]), &mut resp.r.buffers.traversal.primary).ok().flatten().map(|l| l.segment);
+    let sample: Vec<rtlib::rt::Address> = match crate::wire::dec_type(&out.request) {
+        Ok((crate::wire::WType::Poll { request: crate::wire::WReq::SyncRequest { commands, .. } }, _)) => commands,
+        _ => return false,
+    };
+    let sample_segs: Vec<_> = sample.iter().filter_map(|a| w.idx_of.get(&a.id).copied()).filter_map(&mut seg_of).collect();
+    for &x in &out.delivered {
+        let ps = &w.dag.nodes[x].parents;
+        if ps.len() != 1 {
+            continue;
+        }
+        let y = ps[0];
+        if out.delivered.contains(&y) || !cur_req.has(y) {
+            continue;
+        }
+        if let (Some(sx), Some(sy)) = (seg_of(x), seg_of(y)) {
+            if sx == sy && !sample_segs.contains(&sx) {
+                return true;
+            }
+        }
+    }
+    false
+}
+
 /// Root-cause predicate for a fruitless session, evaluated on the harness's own model of what
 /// the responder can know: the addresses of the request sample that the responder has committed
 /// tell it that the requester holds their ancestors; every other committed command is "needed".
-/// True iff every delivered command was already held by the requester AND the needed commands
+/// True iff every delivered command was already held by the requester, none of them is known to
+/// be held from the sample (ancestor-or-equal of a sample address the responder has) AND the needed commands
 /// lie in more than SEGMENT_BUFFER_MAX segments of the responder's storage (so `push_bounded`
 /// had to evict segments, keeping the lowest max cuts).
 fn budget_cause(w: &World, resp: &mut Peer, cur_req: &NodeSet, cur_resp: &NodeSet, out: &Outcome) -> (bool, String) {
@@ -195,8 +259,11 @@ fn budget_cause(w: &World, resp: &mut Peer, cur_req: &NodeSet, cur_resp: &NodeSe
         }
     }
     let over = segments.len() > crate::segment_buffer_max();
+    // the responder had no way to know: none of the delivered commands is an ancestor-or-equal
+    // of a sample address the responder holds
+    let unknowable = out.delivered.iter().all(|&i| !known.has(i));
     (
-        all_held && over,
+        all_held && over && unknowable,
         format!("the responder could not know that the requester holds {} of the {} commands it considered needed; those lie in {} segments, budget {}", needed.count() - needed.minus(cur_req).count(), needed.count(), segments.len(), crate::segment_buffer_max()),
     )
 }
@@ -282,9 +349,52 @@ pub fn run_pair(p: &Pair<'_>, seed: u64) -> PairStats {
     let mut st = PairStats::default();
     let mut bufs = Bufs::new();
     let rng = CtrRng::new(seed, 0x5e55);
-    let ra = build(w, p.sa, p.la).unwrap_or_else(|e| mcx::machinery_error(&format!("cannot build replica A for {}: {e}", p.case())));
-    let rb = build(w, p.sb, p.lb).unwrap_or_else(|e| mcx::machinery_error(&format!("cannot build replica B for {}: {e}", p.case())));
-    let (mut a, mut b) = (Peer::new(ra), Peer::new(rb));
+    let die = |what: &str, e: String| -> ! { mcx::machinery_error(&format!("cannot build {what} for {}: {e}", p.case())) };
+    let (mut a, mut b) = match &p.family {
+        Family::Plain => (
+            Peer::new(build(w, p.sa, p.la).unwrap_or_else(|e| die("replica A", e))),
+            Peer::new(build(w, p.sb, p.lb).unwrap_or_else(|e| die("replica B", e))),
+        ),
+        Family::Batches { a, b } => (
+            Peer::new(crate::world::build_batches(w, a).unwrap_or_else(|e| die("replica A", e))),
+            Peer::new(crate::world::build_batches(w, b).unwrap_or_else(|e| die("replica B", e))),
+        ),
+        Family::Stale { p1, lc } => {
+            // real sessions all the way: A <- early B, then A <- C with another cache
+            let full = Cfg { mode: Mode::Full, persistent: true };
+            let mut a = Peer::new(build(w, &NodeSet::empty(w.n()), p.la).unwrap_or_else(|e| die("replica A", e)));
+            let mut b0 = Peer::new(build(w, p1, p.lb).unwrap_or_else(|e| die("early replica B", e)));
+            let mut have = NodeSet::empty(w.n());
+            let mut guard = 0;
+            while !p1.subset_of(&have) {
+                let o = session(w, &mut a, &mut b0, p1, full, &rng, &mut bufs, false);
+                st.steps += o.steps;
+                have = committed(w, &mut a.r).unwrap_or_else(|e| die("replica A (from early B)", e));
+                guard += 1;
+                if guard > w.n() + 2 || !o.faults.is_empty() {
+                    die("replica A (from early B)", format!("setup sessions do not deliver: {:?}", o.faults));
+                }
+            }
+            let cache_for_b = std::mem::replace(&mut a.cache, rtlib::rt::PeerCache::new());
+            let mut c = Peer::new(build(w, p.sa, *lc).unwrap_or_else(|e| die("replica C", e)));
+            guard = 0;
+            while !p.sa.subset_of(&have) {
+                let o = session(w, &mut a, &mut c, p.sa, full, &rng, &mut bufs, false);
+                st.steps += o.steps;
+                have = committed(w, &mut a.r).unwrap_or_else(|e| die("replica A (from C)", e));
+                guard += 1;
+                if guard > w.n() + 2 || !o.faults.is_empty() {
+                    die("replica A (from C)", format!("setup sessions do not deliver: {:?}", o.faults));
+                }
+            }
+            if have != *p.sa {
+                die("replica A", format!("setup left A with {}", have.show()));
+            }
+            a.cache = cache_for_b; // what A remembers about B: B's head of long ago
+            st.stale_cache_gap = a.cache.heads().iter().map(|h| h.max_cut.get()).max().map(|c| w.frontier(p.sa).iter().map(|&i| w.max_cuts[i]).max().unwrap_or(0).saturating_sub(c)).unwrap_or(0);
+            (a, Peer::new(build(w, p.sb, p.lb).unwrap_or_else(|e| die("replica B", e))))
+        }
+    };
     let mut cur_a = p.sa.clone();
     let mut cur_b = p.sb.clone();
 
@@ -395,6 +505,10 @@ fn fold(acc: &mut Acc, p: &Pair<'_>, st: PairStats, prop: &str, states: &mut Has
     acc.count("multi_response_sessions", st.multi_response_sessions);
     acc.count("responses_cut_at_response_max", st.cut_responses);
     acc.count("buffer_probes", st.probes);
+    acc.count("sessions_trimming_a_pending_segment_by_coverage", st.trimmed_by_coverage);
+    if st.stale_cache_gap > crate::segment_buffer_max() as u64 {
+        acc.count("pairs_with_cache_staler_than_segment_window", 1);
+    }
     if st.sample_max >= crate::sample_max() {
         acc.count("sessions_with_saturated_sample", 1);
     }
@@ -473,7 +587,7 @@ fn run_small(args: &Args, prop: &str, acc: &mut Acc, states_total: &mut u64, rep
                             if reduced_cfgs && w.n() >= 5 && !(cfg == CFGS[0] || cfg == CFGS[3]) {
                                 continue;
                             }
-                            let p = Pair { w: &w, sa, sb, la, lb, cfg, name: show_pair(sa, sb), probe: cfg.mode == Mode::Full && !cfg.persistent };
+                            let p = Pair { family: Family::Plain, w: &w, sa, sb, la, lb, cfg, name: show_pair(sa, sb), probe: cfg.mode == Mode::Full && !cfg.persistent };
                             let st = run_pair(&p, seed);
                             if !sampled && w.n() >= 4 && st.sessions > 3 && st.converged {
                                 sampled = true;
@@ -604,11 +718,144 @@ fn run_grids(args: &Args, prop: &str, flavour: &str, acc: &mut Acc, states_total
                         continue;
                     }
                     for cfg in CFGS {
-                        let p = Pair { w: &j.w, sa: &j.sa, sb: &j.sb, la, lb, cfg, name: j.name.clone(), probe: cfg.mode == Mode::Full && !cfg.persistent && la == lb };
+                        let p = Pair { family: Family::Plain, w: &j.w, sa: &j.sa, sb: &j.sb, la, lb, cfg, name: j.name.clone(), probe: cfg.mode == Mode::Full && !cfg.persistent && la == lb };
                         let st = run_pair(&p, seed);
                         fold(&mut acc, &p, st, prop, &mut states);
                     }
                 }
+            }
+            (acc, states.len() as u64)
+        })
+        .collect();
+    for (a, s) in results {
+        acc.absorb(a);
+        *states_total += s;
+    }
+}
+
+/// `main` commands in a chain after init (nodes 1..=main) and a branch of `t` commands forked
+/// from main command `f` (nodes main+1..=main+t).
+fn fork_world(main: usize, f: usize, t: usize) -> World {
+    use rtlib::dag::{Dag, Kind, Node, Op};
+    let mut nodes = vec![Node { kind: Kind::Init, parents: vec![], rank: crate::world::RANK_INIT, prog: vec![Op::Append] }];
+    for j in 0..main {
+        nodes.push(Node { kind: Kind::Basic(0), parents: vec![j], rank: 0x60, prog: vec![Op::Append] });
+    }
+    for j in 0..t {
+        let parent = if j == 0 { f } else { nodes.len() - 1 };
+        nodes.push(Node { kind: Kind::Basic(1), parents: vec![parent], rank: 0x20, prog: vec![Op::Append] });
+    }
+    World::new(Dag { nodes, merge_rank: MergeRank::Low }, format!("fork{main}at{f}x{t}"))
+}
+
+struct FamJob {
+    w: std::sync::Arc<World>,
+    family: Family,
+    sa: NodeSet,
+    sb: NodeSet,
+    la: Layout,
+    lb: Layout,
+    name: String,
+    persistent_only: bool,
+}
+
+/// Structured families beyond "two replicas built from their sets":
+/// * stale per-peer cache: A synced from B long ago, caught up through a third replica C by more
+///   than the responder's segment window, B moved on (three-replica histories, real sessions);
+/// * responder segments forked in the middle, the requester holding the forked branch in
+///   segments with other boundaries (as when it learnt the prefix through a third replica), so
+///   that the responder trims an already pending segment by coverage.
+fn family_jobs(flavour: &str, tier: Tier) -> Vec<FamJob> {
+    let win = crate::segment_buffer_max();
+    let mut jobs = Vec::new();
+    // --- stale cache
+    let ks: &[usize] = if flavour == "S" { &[1, 2] } else { &[1] };
+    let gaps: Vec<usize> = if flavour == "S" { vec![win - 1, win, win + 1, win + 4] } else { vec![win - 1, win + 1] };
+    for &k in ks {
+        for p1 in [1usize, 2] {
+            for &g in &gaps {
+                for t in [1usize, win + 2] {
+                    let p2 = p1 + g;
+                    let len = p2 + t;
+                    let w = std::sync::Arc::new(World::new(fan(k, len), format!("fan{k}x{len}")));
+                    let prefix = |p: usize| NodeSet::from_iter(w.n(), std::iter::once(0).chain((0..k).flat_map(|b| (0..p).map(move |j| fan_node(len, b, j)))));
+                    let lbs: Vec<Layout> = if flavour == "S" { vec![Layout::Chunk(1), Layout::Chunk(3), Layout::Coarse] } else { vec![Layout::Chunk(1), Layout::Chunk(7)] };
+                    for lb in lbs {
+                        for lc in [Layout::Chunk(1), Layout::Coarse] {
+                            if tier == Tier::Quick && flavour == "S" && k == 2 && lc == Layout::Coarse && lb == Layout::Chunk(3) {
+                                continue;
+                            }
+                            jobs.push(FamJob {
+                                w: w.clone(),
+                                family: Family::Stale { p1: prefix(p1), lc },
+                                sa: prefix(p2),
+                                sb: w.full(),
+                                la: Layout::Coarse,
+                                lb,
+                                name: format!("stale-cache: A<-B at cut {p1}, then A<-C({}) up to cut {p2}, B at cut {len}", lc.tag()),
+                                persistent_only: true,
+                            });
+                        }
+                    }
+                }
+            }
+        }
+    }
+    // --- mid-segment forks with different boundaries on both sides
+    let rmax = rtlib::rt::COMMAND_RESPONSE_MAX;
+    let s_lens: Vec<usize> = if flavour == "S" { vec![2, 3, 4, rmax + 2] } else { vec![2, 4] };
+    for s0 in [1usize, 2] {
+        for &ls in &s_lens {
+            for lu in [1usize, 2] {
+                let s1 = s0 + ls;
+                let main = s1 + lu;
+                for f in s0 + 1..s1 {
+                    for t in [1usize, 2, 3] {
+                        let w = std::sync::Arc::new(fork_world(main, f, t));
+                        let branch: Vec<usize> = (main + 1..=main + t).collect();
+                        let b_batches = vec![(0..=s0).collect::<Vec<_>>(), (s0 + 1..=s1).collect(), (s1 + 1..=main).collect(), branch.clone()];
+                        let sa = NodeSet::from_iter(w.n(), (0..=f).chain(branch.iter().copied()));
+                        // A variants: prefix + branch in ONE segment (learnt from the branch's
+                        // author in one go) / one command per segment / prefix up to the fork point and branch apart
+                        let one: Vec<Vec<usize>> = vec![(0..=s0).collect(), (s0 + 1..=f).chain(branch.iter().copied()).collect()];
+                        let each: Vec<Vec<usize>> = (0..=f).chain(branch.iter().copied()).map(|i| vec![i]).collect();
+                        let apart: Vec<Vec<usize>> = vec![(0..=f).collect(), branch.clone()];
+                        for (an, a_batches) in [("joined", one), ("single", each), ("apart", apart)] {
+                            jobs.push(FamJob {
+                                w: w.clone(),
+                                family: Family::Batches { a: a_batches, b: b_batches.clone() },
+                                sa: sa.clone(),
+                                sb: w.full(),
+                                la: Layout::Coarse,
+                                lb: Layout::Coarse,
+                                name: format!("mid-segment fork: B segments 0..={s0} | {}..={s1} | {}..={main} | branch from {f}; A holds 0..={f}+branch ({an})", s0 + 1, s1 + 1),
+                                persistent_only: false,
+                            });
+                        }
+                    }
+                }
+            }
+        }
+    }
+    jobs
+}
+
+fn run_families(args: &Args, prop: &str, flavour: &str, acc: &mut Acc, states_total: &mut u64, rep: &mut Report) {
+    let jobs = family_jobs(flavour, args.tier);
+    rep.count("family_pairs", jobs.len() as u64);
+    let seed = args.seed;
+    let results: Vec<(Acc, u64)> = jobs
+        .into_par_iter()
+        .map(|j| {
+            let mut acc = Acc::default();
+            let mut states = HashSet::new();
+            for cfg in CFGS {
+                if j.persistent_only && !cfg.persistent {
+                    continue;
+                }
+                let p = Pair { family: j.family.clone(), w: &j.w, sa: &j.sa, sb: &j.sb, la: j.la, lb: j.lb, cfg, name: j.name.clone(), probe: cfg.mode == Mode::Full && !cfg.persistent };
+                let st = run_pair(&p, seed);
+                fold(&mut acc, &p, st, prop, &mut states);
             }
             (acc, states.len() as u64)
         })
@@ -635,6 +882,7 @@ pub fn run(args: &Args, prop: &str) {
     let t_small = t0.elapsed().as_secs_f64();
     let ex_small = acc.counters.get("executions").copied().unwrap_or(0);
     run_grids(args, prop, &flavour, &mut acc, &mut states, &mut rep);
+    run_families(args, prop, &flavour, &mut acc, &mut states, &mut rep);
     rep.set("wall_small_universes_s", (t_small * 10.0).round() / 10.0);
     rep.set("wall_grids_s", ((t0.elapsed().as_secs_f64() - t_small) * 10.0).round() / 10.0);
     rep.set("executions_small_universes", ex_small);
@@ -659,6 +907,8 @@ pub fn run(args: &Args, prop: &str) {
         rep.require_nonzero("responses_cut_at_response_max");
         rep.require_nonzero("sessions_with_saturated_sample");
         rep.require_nonzero("converged_pairs");
+        rep.require_nonzero("sessions_trimming_a_pending_segment_by_coverage");
+        rep.require_nonzero("pairs_with_cache_staler_than_segment_window");
         if prop == "C17" {
             rep.require_nonzero("buffer_probes");
             rep.require_nonzero("buffer_too_small_seen");
@@ -687,7 +937,23 @@ fn replay(args: &Args, prop: &str, f: &std::path::Path) -> ! {
         persistent: r.get("persistent").and_then(|x| x.as_bool()).unwrap_or(false),
     };
     let name = r.get("name").and_then(|x| x.as_str()).unwrap_or("").to_string();
-    let p = Pair { w: &w, sa: &sa, sb: &sb, la: lay("layout_a"), lb: lay("layout_b"), cfg, name, probe: cfg.mode == Mode::Full && !cfg.persistent };
+    let parse_layout = |t: &str| match t {
+        "fine" => Layout::Fine,
+        t if t.starts_with("chunk") => Layout::Chunk(t[5..].parse().unwrap_or(1)),
+        _ => Layout::Coarse,
+    };
+    let batches = |v: Option<&Value>| -> Vec<Vec<usize>> {
+        v.and_then(|x| x.as_array()).map(|bs| bs.iter().map(|b| b.as_array().map(|c| c.iter().filter_map(|x| x.as_u64().map(|x| x as usize)).collect()).unwrap_or_default()).collect()).unwrap_or_default()
+    };
+    let family = match r.get("family").and_then(|f| f.get("kind")).and_then(|k| k.as_str()) {
+        Some("stale") => Family::Stale {
+            p1: r.get("family").and_then(|f| f.get("p1")).and_then(|x| set_from_json(w.n(), x)).unwrap_or_else(|| mcx::machinery_error("replay: no p1")),
+            lc: parse_layout(r.get("family").and_then(|f| f.get("layout_c")).and_then(|x| x.as_str()).unwrap_or("coarse")),
+        },
+        Some("batches") => Family::Batches { a: batches(r.get("family").and_then(|f| f.get("a"))), b: batches(r.get("family").and_then(|f| f.get("b"))) },
+        _ => Family::Plain,
+    };
+    let p = Pair { family, w: &w, sa: &sa, sb: &sb, la: lay("layout_a"), lb: lay("layout_b"), cfg, name, probe: cfg.mode == Mode::Full && !cfg.persistent };
     println!("replaying {}", p.case());
     println!("universe: {}", w.dag.describe());
     let st = run_pair(&p, args.seed);
